@@ -2,7 +2,7 @@
    features.  Statements only.  [region], [all_features], [relation] are the models of
    FeatureDB.region and of make_query-based calls (Model/Query.v); [spec_region] etc. are
    plain filters of the stored rows (Proofs/C06Proofs.v). *)
-From GV Require Import Base.Prelude Model.Bins Model.DB Model.Query Proofs.C06Proofs.
+From GV Require Import Base.Prelude Base.PyStr Model.Bins Model.DB Model.Query Proofs.C06Proofs.
 Open Scope Z_scope.
 
 Theorem C06_region_overlap : forall d seqid S E strand ft,
@@ -62,3 +62,16 @@ Theorem C06_region_once : forall d a rows,
   NoDup (map r_id (d_rows d)) -> region d a = Ok rows -> NoDup (map r_id rows).
 Proof. exact l_region_once. Qed.
 Print Assumptions C06_region_once.
+
+(* string form = tuple form: "seqid:start-end" is parsed into (seqid, start, end), for region() ... *)
+Theorem C06_forms_string_tuple : forall seqid s e strand ft cw, ~ In 58%N seqid -> 0 <= s -> 0 <= e ->
+  region_of_form (RString (seqid ++ colon ++ str_of_int s ++ dash ++ str_of_int e)) strand ft cw
+  = region_of_form (RTuple seqid (Some s) (Some e)) strand ft cw.
+Proof. exact l_forms_string_tuple. Qed.
+Print Assumptions C06_forms_string_tuple.
+
+(* ... and for the limit= argument of all_features / features_of_type / children / parents *)
+Theorem C06_limit_string_tuple : forall seqid s e, ~ In 58%N seqid -> 0 <= s -> 0 <= e ->
+  limit_of_form (LString (seqid ++ colon ++ str_of_int s ++ dash ++ str_of_int e)) = limit_of_form (LTuple (mkLimit seqid s e)).
+Proof. exact l_limit_string_tuple. Qed.
+Print Assumptions C06_limit_string_tuple.
